@@ -605,6 +605,11 @@ def files_registered(repo: Repo, rep):
                     construct="module-conditional",
                 )
                 modvars.add(t_.id)
+    # ... and what is read from it (`module_file = getattr(module, "__file__", None)`)
+    for _ in range(3):
+        for st_ in cfg.stmts(ast.Assign):
+            if any(isinstance(x, ast.Name) and x.id in modvars for x in ast.walk(st_.ast.value)):
+                modvars |= {t_.id for t_ in st_.ast.targets if isinstance(t_, ast.Name)}
     allowed = []
     for c in cfg.conds():
         if any(isinstance(x, ast.Name) and x.id in modvars for x in ast.walk(c.ast)):
